@@ -304,7 +304,12 @@ func process2DecodeStringMap(obj map[string]any, mergeFrom *Document, mergeFromD
 		return nil, fmt.Errorf("%#v (%w)", val2, ErrUnmarshal)
 	}
 
-	return process2(decs[0], mergeFrom, mergeFromDocs, ec, depth)
+	dec, err := normalize(decs[0])
+	if err != nil {
+		return nil, err
+	}
+
+	return process2(dec, mergeFrom, mergeFromDocs, ec, depth)
 }
 
 func process2ToListList(obj []any, delim string) ([]any, error) {
